@@ -211,6 +211,8 @@ def r5_every_tick_probes(ctx):
 def run(ctx):
     r5_every_tick_probes(ctx)
     C09.r4_close_body(ctx)    # giving up releases all waiters: close() drains streams before it waits for the transport
+    from . import C08
+    C08.r2_single_sender_owner(ctx)   # ... and dropping the table's sender is enough to release a reader only if nobody else holds a clone
     r1_writers(ctx)
     r2_request_answered(ctx)
     r3_monitor(ctx)
